@@ -1,4 +1,5 @@
 import TwistedProps.C45.Handlers
+import TwistedProps.C45.RoundTrip
 /-!
 C45 — jelly enforces its security policy.
 
@@ -21,13 +22,30 @@ what the lemmas use: the `function`, `instance` and `method` lemmas do not go th
 unrepaired code (no class/module check on what `function` returns, none on the class `instance`
 instantiates, none on what an unbound `method` returns) — see `known-findings.txt`, `fixed:`.
 
-Round trip (`jelly_unjelly_roundtrip`): NOT proved in Lean.  It is checked on the real code only
-(oracle `roundtrip` in `harness/corr/C45.py`: random allowed graphs with shared and cyclic
-references, compared by graph isomorphism); the implementation violates it for an object used as
-a dictionary key inside its own cycle (`known-findings.txt`, `finding:` roundtrip-notknown-dict-key).
-What is missing for a proof: a model of `_Jellier` (`prepare/preserve/_cook`) over a heap of
-object identities and of the in-place patching of `NotKnown` placeholders
-(`resolveDependants`), and a bisimulation between the two heaps.
+Round trip (second half of the statement), over the heap model `TwistedModel/Spread/JellyHeap.lean`
+(`_Jellier` with `prepare` / `preserve` / `_cook`, `_Unjellier` over a heap of objects with the `NotKnown`
+placeholders of `crefutil` and their in-place patching; tied to the real `jelly.jelly` / `jelly.unjelly` on every
+random graph of the round-trip generator, cyclic ones included):
+
+* `jelly_unjelly_roundtrip_partial` — PROVED for every **acyclic** graph of lists, tuples, sets, frozensets,
+  dicts and instances-with-state, with arbitrary **sharing** (an object referenced from many places, shared
+  tuples / frozensets / instance `__dict__`s included): whenever `jelly` returns, `unjelly` of its output returns a
+  heap and a root that are a copy of the original - an injective renaming of the reachable objects that commutes
+  with shapes, leaves and edges (`RT.Iso`), so sharing is preserved exactly.
+* `roundtrip_dict_key_counterexample` — the recorded finding roundtrip-notknown-dict-key on the model
+  (`b.__dict__ = {b: b}` raises AssertionError), and `roundtrip_instance_state_counterexample` — the finding
+  roundtrip-notknown-instance-state found while building this proof (`a.me = a; jelly(vars(a))`: the copy of `a`
+  has lost its state).  Both replayed on the real code (corpus of `harness/corr/C45.py`).
+* cyclic graphs: NOT proved.  Full statement (kept here):
+      ∀ graph g of allowed objects in which no object is a dictionary key inside its own cycle
+        [and no instance's state object is reached before the instance inside its own cycle],
+        unjelly (jelly g) ≅ g  (same shape, same sharing, same cycles).
+  What is missing: the invariant for `NotKnown` placeholders - while an object is in progress the copies of its
+  back references are `_Dereference` placeholders registered in `dependants`; `resolveDependants` must be shown to
+  patch exactly the slots that hold the placeholder (lists, dict values), and for tuples / sets / frozensets inside
+  a cycle the cascade `_Container.__setitem__` → `resolveDependants` has to be followed.  In the proof below the
+  acyclicity hypothesis is used at one point only (`hback` in `RT.step_succ`); the cyclic executions are covered
+  by the differential tie and by the concrete runs at the end of this file (`example`s), not by a theorem.
 -/
 namespace TwistedProps.C45
 open Twisted.Spread.Jelly
@@ -169,5 +187,142 @@ example (W : World) (hW : W.importable "os" = true) :
   have h2 : (Policy.init.allowModules [utf8 "os"]).isModuleAllowed "os" = true := by
     simp [Policy.isModuleAllowed, Policy.allowModules, Policy.init]
   simp [hModule, idx, nativeString, h1, guardM, h2, pyImport, hW, emit, bind, M.bind, pure, M.pure]
+
+
+/-! ### Round trip -/
+
+section RoundTrip
+open Twisted.Spread.JellyHeap
+
+/-- **C45 (round trip, acyclic graphs with sharing) — partial.**
+    For every class table `env`, every heap `h` of lists, tuples, sets, frozensets, dicts and instances that is
+    well formed (`RT.WF`: leaves carry leaf tags, dicts are flat key/value lists with distinct keys, an instance has
+    one state kid and its class name resolves back to its class, an instance without `__setstate__` has `None` or
+    a non-empty dict as state) and **acyclic** (`rk` decreases along every edge), every root and every recursion
+    budget: if `jelly` returns then `unjelly` of what it returned succeeds, and the new heap with the new root is a
+    copy of the old one (`RT.Iso`: an injective renaming `φ` of the objects, defined on the root and closed under
+    kids, with `new[φ a] = rename φ old[a]`) - so every shared object is still shared, exactly once.
+    MISSING (see the header): graphs with cycles. -/
+theorem jelly_unjelly_roundtrip_partial (env : Twisted.Spread.JellyHeap.Env) (h : Heap) (rk : Addr → Nat)
+    (hwf : RT.WF env h rk) (root : Ref) (hroot : RT.RefOK root) (fuel : Nat) (t : JT) (sJ : JSt)
+    (hj : jelly env h fuel root {} = .ok (t, sJ)) :
+    ∃ r' sU, Twisted.Spread.JellyHeap.unjelly env (render env sJ.cooked t) = .ok (r', sU) ∧
+      RT.Iso h root sU.heap r' :=
+  RT.roundtrip_acyclic hwf root hroot fuel t sJ hj
+
+/-- the same through the entry points `jelly.jelly` / `jelly.unjelly` -/
+theorem jellyFull_unjelly_roundtrip_partial (env : Twisted.Spread.JellyHeap.Env) (h : Heap) (rk : Addr → Nat)
+    (hwf : RT.WF env h rk) (root : Ref) (hroot : RT.RefOK root) (fuel : Nat) (sx : Twisted.Spread.Jelly.Sexp)
+    (hj : jellyFull env h fuel root = .ok sx) :
+    ∃ r' sU, Twisted.Spread.JellyHeap.unjelly env sx = .ok (r', sU) ∧ RT.Iso h root sU.heap r' := by
+  unfold jellyFull at hj
+  split at hj
+  · rename_i t s hjj
+    cases hj
+    exact RT.roundtrip_acyclic hwf root hroot fuel t s hjj
+  · cases hj
+
+namespace RTX
+
+/-- a class table with one class `A.B` (no `__setstate__`) -/
+def env1 : Twisted.Spread.JellyHeap.Env where
+  qual _ := [65, 46, 66]
+  classAllowed _ := true
+  resolve t := if t = [65, 46, 66] then some "A.B" else none
+  hasSetstate _ := false
+
+def isAssertion : Except Twisted.Spread.Jelly.Err (Ref × USt) → Bool
+  | .error .assertion => true
+  | _ => false
+
+def run (h : Heap) (root : Ref) : Except Twisted.Spread.Jelly.Err (Ref × List DObj) :=
+  match jellyFull env1 h 20 root with
+  | .ok sx => match Twisted.Spread.JellyHeap.unjelly env1 sx with
+    | .ok (r, s) => .ok (r, s.heap)
+    | .error e => .error e
+  | .error e => .error e
+
+/-- `b = B(); b.__dict__ = {b: b}` -/
+def hKey : Heap := [⟨.inst "A.B", [.ptr 1]⟩, ⟨.dict, [.ptr 0, .ptr 0]⟩]
+/-- `t = (7,); g = [t, t]` -/
+def hShared : Heap := [⟨.list, [.ptr 1, .ptr 1]⟩, ⟨.tuple, [.imm (.atom (.int 7))]⟩]
+/-- `l = []; l.append(l)` -/
+def hCycle : Heap := [⟨.list, [.ptr 0]⟩]
+/-- `t = (l,); l = [t]; g = [l, t]`: a tuple inside a cycle, shared again after the cycle closed -/
+def hTupleCycle : Heap := [⟨.list, [.ptr 1, .ptr 2]⟩, ⟨.list, [.ptr 2]⟩, ⟨.tuple, [.ptr 1]⟩]
+/-- `a = A(); a.m = a; g = vars(a)` -/
+def hState : Heap := [⟨.dict, [.imm (.atom (.bytes [109])), .ptr 1]⟩, ⟨.inst "A.B", [.ptr 0]⟩]
+
+theorem wf_shared : RT.WF env1 hShared (fun a => if a = 0 then 1 else 0) := by
+  refine ⟨?_, ?_, ?_, ?_, ?_⟩
+  · intro a o ha b hb
+    rcases a with _ | _ | a <;> simp [hShared] at ha
+    · subst ha; simp at hb; subst hb; simp
+    · subst ha; simp at hb
+  · intro a o ha r hr
+    rcases a with _ | _ | a <;> simp [hShared] at ha
+    · subst ha; simp at hr; subst hr; trivial
+    · subst ha; simp at hr; subst hr; trivial
+  · intro a ks ha
+    rcases a with _ | _ | a <;> simp [hShared] at ha
+  · intro a ks ha
+    rcases a with _ | _ | a <;> simp [hShared] at ha
+  · intro a c ks ha
+    rcases a with _ | _ | a <;> simp [hShared] at ha
+
+end RTX
+
+open RTX in
+/-- non-vacuity: the hypotheses of `jelly_unjelly_roundtrip_partial` hold of a graph with a shared tuple, `jelly`
+    returns on it, and the conclusion follows -/
+example : ∃ r' sU t sJ, jelly env1 hShared 9 (.ptr 0) {} = .ok (t, sJ) ∧
+    Twisted.Spread.JellyHeap.unjelly env1 (render env1 sJ.cooked t) = .ok (r', sU) ∧
+    RT.Iso hShared (.ptr 0) sU.heap r' := by
+  have hj : ∃ t sJ, jelly env1 hShared 9 (.ptr 0) {} = .ok (t, sJ) := by
+    have hb : (match jelly env1 hShared 9 (.ptr 0) {} with | .ok _ => true | .error _ => false) = true := by decide
+    cases h : jelly env1 hShared 9 (.ptr 0) {} with
+    | ok v => exact ⟨v.1, v.2, rfl⟩
+    | error e => rw [h] at hb; simp at hb
+  obtain ⟨t, sJ, hj⟩ := hj
+  obtain ⟨r', sU, h1, h2⟩ := jelly_unjelly_roundtrip_partial env1 hShared _ wf_shared (.ptr 0) trivial 9 t sJ hj
+  exact ⟨r', sU, t, sJ, hj, h1, h2⟩
+
+open RTX in
+/-- the shared tuple is jellied once, as `[reference, 1, [tuple, 7]]`, then `[dereference, 1]` -/
+example : (match jellyFull env1 hShared 9 (.ptr 0) with
+    | .ok (.list [_, .list [.atom (.bytes r), .atom (.int 1), _], .list [.atom (.bytes d), .atom (.int 1)]]) =>
+      r == tReference && d == tDereference
+    | _ => false) = true := by decide
+
+open RTX in
+/-- **Finding roundtrip-notknown-dict-key on the model**: an object used as a dictionary key inside its own cycle
+    (`b.__dict__ = {b: b}`) jellies, and unjellying that raises AssertionError (`NotKnown.__hash__`). -/
+theorem roundtrip_dict_key_counterexample :
+    (match jellyFull env1 hKey 20 (.ptr 0) with
+      | .ok sx => isAssertion (Twisted.Spread.JellyHeap.unjelly env1 sx)
+      | .error _ => false) = true := by decide
+
+open RTX in
+/-- **Finding roundtrip-notknown-instance-state on the model**: `a.m = a; g = vars(a)`.  The dict comes back, its
+    value is an instance, but that instance's state is `None` (an empty `__dict__`) instead of the dict:
+    `_newInstance` was handed the `_Dereference` placeholder and `defaultSetter` dropped it. -/
+theorem roundtrip_instance_state_counterexample :
+    (match run hState (.ptr 0) with
+      | .ok (.ptr 0, [.obj .dict [_, .ptr 2], _, .obj (.inst _) [st]]) => st == noneLeaf
+      | _ => false) = true := by decide
+
+open RTX in
+/-- a cyclic list comes back cyclic (execution of the model, the placeholder patched in place) -/
+example : (match run hCycle (.ptr 0) with
+    | .ok (.ptr 0, (.obj .list [.ptr 0]) :: _) => true
+    | _ => false) = true := by decide
+
+open RTX in
+/-- a tuple inside a cycle, shared again afterwards: `_Tuple` resolved by the cascade, one tuple object -/
+example : (match run hTupleCycle (.ptr 0) with
+    | .ok (.ptr 0, (.obj .list [.ptr 1, .ptr t]) :: (.obj .list [.ptr t']) :: _) => t == t'
+    | _ => false) = true := by decide +kernel
+
+end RoundTrip
 
 end TwistedProps.C45
